@@ -99,13 +99,9 @@ class PlainName:
             if len(result_lst) == 1:
                 result = result_lst[0]
             elif len(result_lst) > 1:
-                line, col = get_parser(obj).pos_to_linecol(obj_ref.position)
-                raise TextXSemanticError(
-                    f"name {obj_ref.obj_name} is not unique.",
-                    line=line,
-                    col=col,
-                    filename=get_model(obj)._tx_filename,
-                )
+                # The location of the reference is filled in by the
+                # reference resolver. `obj` may be an imported model here.
+                raise TextXSemanticError(f"name {obj_ref.obj_name} is not unique.")
             else:
                 result = None
         else:
